@@ -432,3 +432,7 @@ impl fmt::Display for Inspect<'_> {
         self.0.b.inspect(f)
     }
 }
+
+#[cfg(kani)]
+#[path = "/verif/kani/evalops.rs"]
+mod kani_verif;
